@@ -279,6 +279,22 @@ def _with_op(scenario, index, op):
 
 
 def shrink(scenario):
+    """
+    candidates stay scenarios generate() could have made: with the shipped Dict / JsonFile resolvers one table serves
+    every caller of the process, so an edit of one request's table is an edit of all of them and of the resolver's
+    """
+    for candidate in _shrink(scenario):
+        if candidate["world"].get("flavour") == "dict" and candidate["requests"]:
+            before = scenario["world"]["dict_cer"]["packages"]
+            tables = [r["cer"]["packages"] for r in candidate["requests"]]
+            table = next((t for t in tables if t != before), tables[0])
+            for request in candidate["requests"]:
+                request["cer"]["packages"] = clone(table)
+            candidate["world"] = dict(candidate["world"], dict_cer=clone(candidate["requests"][0]["cer"]))
+        yield candidate
+
+
+def _shrink(scenario):
     requests = scenario["requests"]
     if len(requests) > 1:
         for index in range(len(requests)):
@@ -326,8 +342,4 @@ def shrink(scenario):
                 yield candidate
     if scenario["world"].get("flavour") == "cer":
         yield dict(scenario, world=dict(scenario["world"], flavour="sim"))
-    if scenario["world"].get("flavour") == "dict":
-        # keep the resolver's table in step with the (possibly shrunk) first request
-        if scenario["world"]["dict_cer"]["packages"] != requests[0]["cer"]["packages"]:
-            yield dict(scenario, world=dict(scenario["world"], dict_cer=clone(requests[0]["cer"])))
     yield from shrink_decisions(scenario)
